@@ -1,10 +1,622 @@
-//! Family `plan` — stub (replaced by the unit that owns this family).
+//! Family `plan` (property C03): the static analyses that build the optimisation plan, and the
+//! plan / no-plan differential.
+//!
+//! Request (one line):
+//! ```text
+//! plan <hex src> ast=<annotated AST …> facts=<facts text>
+//! ```
+//! The generator runs the real front end to produce `ast=` and `facts=` (they are what the Lean model
+//! consumes); the Rust side re-runs the front end on `<hex src>` and answers from the real analyses:
+//! ```text
+//! limit=<none|metric> warns=<kind:lo:hi,…|-> unreach=<ids|-> unusedAsg=<ids|-> unusedVar=<local ids|->
+//!   unusedFn=<fn ids|-> removable=<stmt ids|-> fns=<fn ids|-> cls=<N|T|I per statement|-> end=<ok|panic|rejected>
+//! ```
+//! (one line; ids `.`-separated, ascending). `cls` is the resolver's per-statement effect class.
+//! Implementation-level oracle (needs no model): the real `Runtime` is run on the same AST and facts
+//! with the plan and with `None`; printed values and the ending must be equal unless one of the runs
+//! ended in stack exhaustion → `ORACLE-FAIL <line> plan-changes-behaviour …` on stderr. Each run
+//! happens in a forked child (an abort or a hang of the code under test is an ending, not a crash
+//! of the harness). The runs are
+//! summarised on stderr as `RUNINFO <line> …` (used by the check to count non-trivial cases).
+//!
+//! Facts text (whitespace free; `_` = none; id lists `.`-separated, `-` when empty):
+//! ```text
+//! fn=<parent>,<defStmt>,<localsStart>,<localsLen>,<paramCount>,<definingScope>;…|lo=<owner>,<declScope>,<declStmt>,<p|v>;…
+//!   |sc=<parent>,<owner>;…|sl=<locals>;…|st=<function>,<scope>,<reads>,<writes>,<callees>,<N|T|I>;…|fd=<callees>,<capReads>,<capWrites>;…|uc=<number of user calls>
+//! ```
 
-pub fn main(_args: &[String]) -> i32 {
-    eprintln!("family plan: not built yet");
-    2
+use std::io::Write;
+
+use naijascript::analysis::cfg;
+use naijascript::analysis::diagnostics as adiag;
+use naijascript::analysis::effects::ExprClass;
+use naijascript::analysis::facts::{LocalKind, ProgramFacts};
+use naijascript::analysis::ids::{FunctionId, INVALID_SCOPE_ID, StmtId};
+use naijascript::analysis::limits::{self, DEFAULT_CAPS};
+use naijascript::analysis::liveness;
+use naijascript::analysis::reachability;
+use naijascript::analysis::summary;
+use naijascript::arena::Arena;
+use naijascript::diagnostics::Severity;
+use naijascript::resolver::Resolver;
+use naijascript::runtime::Runtime;
+use naijascript::syntax::parser::{BlockRef, Parser};
+use naijascript::syntax::scanner::Lexer;
+
+use crate::astio::{self, Opts};
+use crate::util::{self, Rng};
+
+#[path = "plangen.rs"]
+mod plangen;
+
+pub fn main(args: &[String]) -> i32 {
+    match args.first().map(String::as_str) {
+        Some("gen") => gen_main(&args[1..]),
+        Some("run") => run_main(&args[1..]),
+        Some("req") => req_main(&args[1..]),
+        Some("show") => show_main(&args[1..]),
+        _ => {
+            eprintln!("usage: nvh plan gen --seed S --n N | run | req (source lines on stdin → requests) | show (source on stdin)");
+            2
+        }
+    }
 }
 
-/// Constants/tables of the compiled crate this family wants in `nvh dump-tables`
-/// (JSON key, JSON value text).
 pub fn dump_tables(_out: &mut Vec<(String, String)>) {}
+
+// ------------------------------------------------------------------------------------------------
+// text forms
+
+fn ids(v: impl IntoIterator<Item = u32>) -> String {
+    let mut v: Vec<u32> = v.into_iter().collect();
+    v.sort_unstable();
+    v.dedup();
+    if v.is_empty() { "-".into() } else { v.iter().map(u32::to_string).collect::<Vec<_>>().join(".") }
+}
+
+fn ids_keep(v: impl IntoIterator<Item = u32>) -> String {
+    let v: Vec<u32> = v.into_iter().collect();
+    if v.is_empty() { "-".into() } else { v.iter().map(u32::to_string).collect::<Vec<_>>().join(".") }
+}
+
+fn opt(v: Option<u32>) -> String {
+    v.map_or("_".into(), |n| n.to_string())
+}
+
+fn class_name(c: ExprClass) -> &'static str {
+    match c {
+        ExprClass::PureNoTrap => "N",
+        ExprClass::PureMayTrap => "T",
+        ExprClass::Impure => "I",
+    }
+}
+
+pub fn facts_text(f: &ProgramFacts<'_, '_>) -> String {
+    let semi = |v: Vec<String>| if v.is_empty() { "-".to_string() } else { v.join(";") };
+    let fns = f
+        .functions
+        .iter()
+        .map(|i| {
+            format!(
+                "{},{},{},{},{},{}",
+                opt(i.parent.map(|p| p.0)),
+                opt(i.def_stmt.map(|s| s.0)),
+                i.locals_start,
+                i.locals_len,
+                i.params.map_or(0, |p| p.params.len()),
+                if i.defining_scope == INVALID_SCOPE_ID { "_".to_string() } else { i.defining_scope.0.to_string() }
+            )
+        })
+        .collect();
+    let los = f
+        .locals
+        .iter()
+        .map(|l| {
+            format!(
+                "{},{},{},{}",
+                l.owner.0,
+                l.declaring_scope.0,
+                opt(l.decl_stmt.map(|s| s.0)),
+                if l.kind == LocalKind::Parameter { "p" } else { "v" }
+            )
+        })
+        .collect();
+    let scs = f.scopes.iter().map(|s| format!("{},{}", opt(s.parent.map(|p| p.0)), s.owner.0)).collect();
+    let sls = f.scope_locals.iter().map(|ls| ids_keep(ls.iter().map(|l| l.0))).collect();
+    let sts = f
+        .stmt_effects
+        .iter()
+        .map(|s| {
+            format!(
+                "{},{},{},{},{},{}",
+                s.function.0,
+                s.scope.0,
+                ids_keep(s.reads.iter().map(|l| l.0)),
+                ids_keep(s.writes.iter().map(|l| l.0)),
+                ids_keep(s.direct_callees.iter().map(|l| l.0)),
+                class_name(s.expr_class)
+            )
+        })
+        .collect();
+    let fds = f
+        .function_directs
+        .iter()
+        .map(|d| {
+            format!(
+                "{},{},{}",
+                ids_keep(d.direct_callees.iter().map(|l| l.0)),
+                ids_keep(d.direct_capture_reads.iter().map(|l| l.0)),
+                ids_keep(d.direct_capture_writes.iter().map(|l| l.0))
+            )
+        })
+        .collect();
+    format!(
+        "fn={}|lo={}|sc={}|sl={}|st={}|fd={}|uc={}",
+        semi(fns),
+        semi(los),
+        semi(scs),
+        semi(sls),
+        semi(sts),
+        semi(fds),
+        f.user_calls.len()
+    )
+}
+
+// ------------------------------------------------------------------------------------------------
+// front end
+
+/// Parse + resolve `src`; `f(root, resolver)` when the program is accepted (no parse diagnostics,
+/// no resolver errors), else `Err(reason)`.
+fn with_accepted<'a, R>(
+    src: &'a str,
+    arena: &'a Arena,
+    f: impl FnOnce(BlockRef<'a>, &Resolver<'a, 'a>) -> R,
+) -> Result<R, &'static str> {
+    let lexer = Lexer::new(src, arena);
+    let mut parser = Parser::new(lexer, arena);
+    let (root, errs) = parser.parse_program();
+    if !errs.diagnostics.is_empty() {
+        return Err("parse");
+    }
+    let mut resolver = Resolver::new(arena);
+    resolver.resolve(root);
+    if resolver.errors.has_errors() {
+        return Err("resolve");
+    }
+    Ok(f(root, &resolver))
+}
+
+/// The request line for `src` (needs the real front end), or `None` when the program is rejected.
+pub fn request_for(src: &str) -> Option<String> {
+    let arena = Arena::new(crate::pipeline::ARENA_CAP).unwrap();
+    with_accepted(src, &arena, |root, r| {
+        format!(
+            "plan {} ast={} facts={}",
+            util::hex(src.as_bytes()),
+            astio::program(&Opts { spans: true, facts: Some(&r.facts) }, root),
+            facts_text(&r.facts)
+        )
+    })
+    .ok()
+}
+
+// ------------------------------------------------------------------------------------------------
+// the real analyses
+
+fn warn_kind(msg: &str) -> &'static str {
+    match msg {
+        "Unreachable code" => "unreachable",
+        "Unused assignment" => "unusedAsg",
+        "Unused variable" => "unusedVar",
+        "Unused function" => "unusedFn",
+        "Analysis skipped after reaching a configured resource limit" => "limit",
+        _ => "other",
+    }
+}
+
+/// The answer line and the number of statements the plan removes although the analysis considers
+/// them reachable inside a function whose body is reachable (what makes a case non-trivial).
+fn analysis_answer<'a>(r: &Resolver<'a, 'a>, arena: &'a Arena) -> (String, usize) {
+    let facts = &r.facts;
+    let warns: Vec<String> = r
+        .errors
+        .diagnostics
+        .iter()
+        .filter(|d| d.severity == Severity::Warning)
+        .map(|d| format!("{}:{}:{}", warn_kind(d.message), d.span.start, d.span.end))
+        .collect();
+    let warns = if warns.is_empty() { "-".to_string() } else { warns.join(",") };
+    let cls: String = facts.stmt_effects.iter().map(|s| class_name(s.expr_class)).collect();
+    let cls = if cls.is_empty() { "-".to_string() } else { cls };
+
+    let counts = cfg::count_program(facts, arena);
+    if let Some(limit) = limits::first_exceeded_limit(facts, &counts, DEFAULT_CAPS) {
+        let plan_none = r.optimization_plan.is_none();
+        return (
+            format!(
+                "limit={} warns={} unreach=- unusedAsg=- unusedVar=- unusedFn=- removable=- fns=- cls={} end={}",
+                limit.metric.replace(' ', "_"),
+                warns,
+                cls,
+                if plan_none { "ok" } else { "plan-present-over-limit" }
+            ),
+            0,
+        );
+    }
+    let program = cfg::build_program_with_counts(facts, &counts, arena);
+    let reachable = reachability::reachable_statement_mask(&program, arena);
+    let summaries = summary::compute_summaries(facts, arena);
+    let fr = adiag::compute_function_reachability(&program, facts, &reachable, arena);
+    let ua = liveness::unused_assignments(&program, facts, &summaries, &reachable, arena);
+    let uv = adiag::unused_variables(&program, facts, &summaries, &reachable, &fr, arena);
+    let uf = adiag::unused_functions(facts, &reachable, &fr, arena);
+    let unreach = ids(reachable.iter().enumerate().filter(|(_, r)| !**r).map(|(i, _)| i as u32));
+    let mut live_removed = 0usize;
+    let (removable, fns, end) = match r.optimization_plan.as_ref() {
+        Some(plan) => {
+            let n = facts.stmt_effects.len() as u32;
+            let rem = ids((0..n).filter(|i| plan.contains_removable_stmt(StmtId(*i))));
+            live_removed = (0..n)
+                .filter(|i| {
+                    plan.contains_removable_stmt(StmtId(*i))
+                        && reachable[*i as usize]
+                        && fr.body_reachable[facts.stmt_effects[*i as usize].function.0 as usize]
+                })
+                .count();
+            let nf = facts.functions.len() as u32;
+            let fns = ids((0..nf).filter(|i| plan.contains_removable_function_def(FunctionId(*i))));
+            (rem, fns, "ok")
+        }
+        None => ("-".to_string(), "-".to_string(), "no-plan"),
+    };
+    (
+        format!(
+            "limit=none warns={} unreach={} unusedAsg={} unusedVar={} unusedFn={} removable={} fns={} cls={} end={}",
+            warns,
+            unreach,
+            ids(ua.iter().map(|w| w.stmt_id.0)),
+            ids(uv.iter().map(|w| w.local.0)),
+            ids(uf.iter().map(|w| w.function.0)),
+            removable,
+            fns,
+            cls,
+            end
+        ),
+        live_removed,
+    )
+}
+
+// ------------------------------------------------------------------------------------------------
+// the differential oracle
+
+#[derive(PartialEq, Eq, Debug, Clone)]
+pub struct RunResult {
+    pub outputs: Vec<String>,
+    /// `ok`, `rt:<kind>`, `panic`
+    pub ending: String,
+}
+
+impl RunResult {
+    fn exhausted(&self) -> bool {
+        self.ending == "rt:Stack overflow"
+    }
+    fn brief(&self) -> String {
+        let mut o = self.outputs.join("|");
+        if o.len() > 120 {
+            o.truncate(120);
+            o.push('…');
+        }
+        format!("[{}] {}", o, self.ending)
+    }
+}
+
+fn value_text(v: &naijascript::runtime::Value<'_>) -> String {
+    use naijascript::runtime::Value;
+    let tag = match v {
+        Value::Str(..) => "s",
+        Value::Number(n) => {
+            return format!("n:{:016x}", if n.is_nan() { f64::NAN.to_bits() } else { n.to_bits() });
+        }
+        Value::Bool(..) => "b",
+        Value::Array(..) => "a",
+        Value::Host(..) => "h",
+        Value::Null => "z",
+    };
+    format!("{tag}:{v}")
+}
+
+/// Run the real runtime on a freshly resolved copy of `src`, with the resolver's plan or without.
+pub fn run_once(src: &str, with_plan: bool) -> RunResult {
+    let use_frame = std::env::var("NV_PLAN_FRAME").is_ok();
+    let src = src.to_string();
+    let r = util::catch(move || {
+        let arena = Arena::new(crate::pipeline::ARENA_CAP).unwrap();
+        let frame = Arena::new(crate::pipeline::ARENA_CAP).unwrap();
+        // SAFETY of lifetimes: everything lives until the end of this closure.
+        let lexer = Lexer::new(&src, &arena);
+        let mut parser = Parser::new(lexer, &arena);
+        let (root, errs) = parser.parse_program();
+        if !errs.diagnostics.is_empty() {
+            return RunResult { outputs: vec![], ending: "rejected".into() };
+        }
+        let mut resolver = Resolver::new(&arena);
+        resolver.resolve(root);
+        if resolver.errors.has_errors() {
+            return RunResult { outputs: vec![], ending: "rejected".into() };
+        }
+        let (facts, plan) = resolver.into_artifacts();
+        let mut rt = if use_frame { Runtime::new(&arena, Some(&frame)) } else { Runtime::new(&arena, None) };
+        let plan_ref = if with_plan { plan.as_ref() } else { None };
+        let mut outputs = Vec::new();
+        let ending;
+        {
+            let errs = rt.run_with_analysis(root, &facts, plan_ref);
+            ending = match errs.diagnostics.iter().find(|d| d.severity == Severity::Error) {
+                Some(d) => format!("rt:{}", d.message),
+                None => "ok".to_string(),
+            };
+        }
+        for v in &rt.output {
+            outputs.push(value_text(v));
+        }
+        RunResult { outputs, ending }
+    });
+    r.unwrap_or_else(|_m| RunResult { outputs: vec![], ending: "panic".into() })
+}
+
+/// Run `f` in a forked child and return what it wrote, so that an abort (double panic, UB check,
+/// native stack overflow) or a hang in the code under test cannot take the harness down.
+/// `Err("abort:<signal>")` / `Err("hang")`.
+fn in_child(timeout_secs: u64, f: impl FnOnce() -> String) -> Result<String, String> {
+    use std::os::fd::FromRawFd;
+    let mut fds = [0i32; 2];
+    unsafe {
+        if libc::pipe(fds.as_mut_ptr()) != 0 {
+            return Err("pipe".into());
+        }
+        let pid = libc::fork();
+        if pid < 0 {
+            return Err("fork".into());
+        }
+        if pid == 0 {
+            libc::close(fds[0]);
+            let s = f();
+            let mut w = std::fs::File::from_raw_fd(fds[1]);
+            let _ = w.write_all(s.as_bytes());
+            let _ = w.flush();
+            libc::_exit(0);
+        }
+        libc::close(fds[1]);
+        let mut buf = Vec::new();
+        let start = std::time::Instant::now();
+        let mut chunk = [0u8; 65536];
+        let mut hung = false;
+        loop {
+            let mut pfd = libc::pollfd { fd: fds[0], events: libc::POLLIN, revents: 0 };
+            let left = (timeout_secs * 1000).saturating_sub(start.elapsed().as_millis() as u64);
+            if left == 0 {
+                hung = true;
+                break;
+            }
+            let r = libc::poll(&mut pfd, 1, left.min(1000) as i32);
+            if r > 0 {
+                let n = libc::read(fds[0], chunk.as_mut_ptr().cast(), chunk.len());
+                if n <= 0 {
+                    break;
+                }
+                buf.extend_from_slice(&chunk[..n as usize]);
+            }
+        }
+        libc::close(fds[0]);
+        if hung {
+            libc::kill(pid, libc::SIGKILL);
+        }
+        let mut status = 0;
+        libc::waitpid(pid, &mut status, 0);
+        if hung {
+            return Err("hang".into());
+        }
+        if libc::WIFSIGNALED(status) {
+            return Err(format!("abort:{}", libc::WTERMSIG(status)));
+        }
+        Ok(String::from_utf8_lossy(&buf).into_owned())
+    }
+}
+
+fn run_isolated(src: &str, with_plan: bool, timeout_secs: u64) -> RunResult {
+    let r = in_child(timeout_secs, || {
+        let r = run_once(src, with_plan);
+        let mut s = r.ending.clone();
+        for o in &r.outputs {
+            s.push('\n');
+            s.push_str(&util::hex(o.as_bytes()));
+        }
+        s
+    });
+    match r {
+        Ok(text) => {
+            let mut it = text.split('\n');
+            let ending = it.next().unwrap_or("").to_string();
+            let outputs = it
+                .map(|h| String::from_utf8_lossy(&util::unhex(h).unwrap_or_default()).into_owned())
+                .collect();
+            RunResult { outputs, ending }
+        }
+        Err(e) => RunResult { outputs: vec![], ending: e },
+    }
+}
+
+/// Both runs; `Some(description)` when the property is violated on this program.
+pub fn differential(src: &str, timeout_secs: u64) -> (RunResult, RunResult, Option<String>) {
+    let with = run_isolated(src, true, timeout_secs);
+    let without = run_isolated(src, false, timeout_secs);
+    let lost = |r: &RunResult| r.ending == "panic" || r.ending.starts_with("abort");
+    let bad = if with.exhausted() || without.exhausted() {
+        None
+    } else if lost(&with) && lost(&without) {
+        // a panic / abort loses the outputs collected so far; both crashing is a C06 / C02 matter
+        None
+    } else if without.ending == "hang" {
+        // the program itself does not terminate (resource exhaustion: not compared)
+        None
+    } else if with != without {
+        Some(format!("plan-changes-behaviour with-plan={} without={}", with.brief(), without.brief()))
+    } else {
+        None
+    };
+    (with, without, bad)
+}
+
+// ------------------------------------------------------------------------------------------------
+// stdout handling: `shout` prints to the real stdout, so answers travel on a duplicate of fd 1 and
+// fd 1 itself is pointed at /dev/null while programs run.
+
+struct AnswerOut {
+    w: std::io::BufWriter<std::fs::File>,
+}
+
+impl AnswerOut {
+    fn take_stdout() -> Self {
+        use std::os::fd::FromRawFd;
+        unsafe {
+            let saved = libc::dup(1);
+            let devnull = libc::open(c"/dev/null".as_ptr(), libc::O_WRONLY);
+            libc::dup2(devnull, 1);
+            libc::close(devnull);
+            AnswerOut { w: std::io::BufWriter::new(std::fs::File::from_raw_fd(saved)) }
+        }
+    }
+    fn line(&mut self, s: &str) {
+        self.w.write_all(s.as_bytes()).unwrap();
+        self.w.write_all(b"\n").unwrap();
+    }
+    fn flush(&mut self) {
+        let _ = self.w.flush();
+    }
+}
+
+fn run_main(args: &[String]) -> i32 {
+    util::silence_panics();
+    let no_oracle = util::flag(args, "--no-oracle");
+    let mut out = AnswerOut::take_stdout();
+    let timeout = util::opt_u64(args, "--case-timeout", 20);
+    for (i, line) in util::stdin_lines().iter().enumerate() {
+        let w: Vec<&str> = line.split_whitespace().collect();
+        let ans = match w.as_slice() {
+            ["plan", hexsrc, ..] => {
+                let Some(bytes) = util::unhex(hexsrc) else {
+                    out.line("bad-op");
+                    continue;
+                };
+                let Ok(text) = String::from_utf8(bytes) else {
+                    out.line("bad-utf8");
+                    continue;
+                };
+                let t2 = text.clone();
+                let a = util::catch(move || {
+                    let arena = Arena::new(crate::pipeline::ARENA_CAP).unwrap();
+                    match with_accepted(&t2, &arena, |_root, r| analysis_answer(r, &arena)) {
+                        Ok(s) => s,
+                        Err(_) => (
+                            "limit=none warns=- unreach=- unusedAsg=- unusedVar=- unusedFn=- removable=- fns=- cls=- end=rejected".to_string(),
+                            0,
+                        ),
+                    }
+                })
+                .unwrap_or_else(|m| {
+                    (
+                        format!(
+                            "limit=none warns=- unreach=- unusedAsg=- unusedVar=- unusedFn=- removable=- fns=- cls=- end=panic:{}",
+                            m.replace([' ', '\n'], "_")
+                        ),
+                        0,
+                    )
+                });
+                let (a, live_removed) = a;
+                if !no_oracle && a.ends_with("end=ok") {
+                    let (with, without, bad) = differential(&text, timeout);
+                    if let Some(b) = bad {
+                        eprintln!("ORACLE-FAIL {} {}", i + 1, b);
+                    }
+                    eprintln!(
+                        "RUNINFO {} live_removed={} outputs={} ending={} ending_with_plan={}",
+                        i + 1,
+                        live_removed,
+                        without.outputs.len(),
+                        without.ending.replace(' ', "_"),
+                        with.ending.replace(' ', "_")
+                    );
+                }
+                a
+            }
+            _ => "bad-op".to_string(),
+        };
+        out.line(&ans);
+    }
+    out.flush();
+    0
+}
+
+/// `nvh plan req`: each stdin line is a program's source text (one line); prints its request line
+/// (or `rejected`).
+fn req_main(_args: &[String]) -> i32 {
+    util::silence_panics();
+    let mut out = util::Out::new();
+    for line in util::stdin_lines() {
+        let l = line.clone();
+        match util::catch(move || request_for(&l)) {
+            Ok(Some(r)) => out.line(&r),
+            Ok(None) => out.line("rejected"),
+            Err(_) => out.line("rejected-panic"),
+        }
+    }
+    0
+}
+
+/// `nvh plan show`: whole stdin is one program; prints the analysis answer and both runs (debug aid).
+fn show_main(_args: &[String]) -> i32 {
+    util::silence_panics();
+    let mut src = String::new();
+    std::io::Read::read_to_string(&mut std::io::stdin(), &mut src).unwrap();
+    let mut out = AnswerOut::take_stdout();
+    let s2 = src.clone();
+    let a = util::catch(move || {
+        let arena = Arena::new(crate::pipeline::ARENA_CAP).unwrap();
+        match with_accepted(&s2, &arena, |_root, r| {
+            let d = crate::pipeline::diags_str(&r.errors);
+            format!("{}\ndiags={}", analysis_answer(r, &arena).0, d)
+        }) {
+            Ok(s) => s,
+            Err(e) => format!("rejected:{e}"),
+        }
+    })
+    .unwrap_or_else(|m| format!("panic:{m}"));
+    out.line(&a);
+    let (with, without, bad) = differential(&src, 20);
+    out.line(&format!("with-plan:    {}", with.brief()));
+    out.line(&format!("without-plan: {}", without.brief()));
+    out.line(&format!("oracle: {}", bad.unwrap_or_else(|| "ok".into())));
+    out.flush();
+    0
+}
+
+fn gen_main(args: &[String]) -> i32 {
+    let seed = util::opt_u64(args, "--seed", 1);
+    let n = util::opt_u64(args, "--n", 100);
+    let size = util::opt_u64(args, "--size", 14);
+    let mut rng = Rng::new(seed ^ 0xC03);
+    let mut out = util::Out::new();
+    util::silence_panics();
+    let mut produced = 0;
+    let mut attempts = 0;
+    while produced < n && attempts < n * 20 {
+        attempts += 1;
+        let src = plangen::program(&mut rng, size as usize);
+        let s2 = src.clone();
+        if let Ok(Some(r)) = util::catch(move || request_for(&s2)) {
+            out.line(&r);
+            produced += 1;
+        }
+    }
+    0
+}
